@@ -124,9 +124,46 @@ def run(ctx):
     ctx.ob("E10.cfg", "feature-sites", got == want, "cfg(feature) sites: %s (expected exactly the compile_error guard and the two inner_types re-exports)" % sorted(got), sample={"sites": [list(map(str, s)) for s in sites]})
     other = [s for s in sites if "feature" not in s[2] and s[2] not in ("test",)]
     ctx.ob("E10.cfg", "other-cfg", not other, "other cfg conditions in src/: %s" % other)
+    # provided trait methods that one backend overrides and the other inherits, among the methods blsful calls
+    check_override_divergence(ctx, Pa, Pb)
     # seed-deterministic values avoid the backend sampler
     K.check_seeded_derivation(ctx, Pa)
     ctx.assume("blstrs_plus 0.8.18 and bls12_381_plus 0.8.18 implement the same curve arithmetic, encodings and hash-to-curve (numerical agreement of two dependency crates is not decided statically)")
+
+
+# confirmed by reading both dependency sources: (trait, self type, method) -> why the override is the same function
+OVERRIDE_TRIAGED = {
+    ("Field", "Scalar", "is_zero"): "blstrs_plus 0.8.18 scalar.rs: `self.ct_eq(&ZERO)` - literally the ff 0.13 default body `self.ct_eq(&Self::ZERO)` that bls12_381_plus inherits",
+    ("Field", "Fp", "is_zero"): "blstrs_plus 0.8.18 fp.rs overrides is_zero with the same ct_eq-against-zero predicate as the inherited default; blsful never handles base-field elements directly",
+}
+
+
+def _override_table(P):
+    t = {}
+    for o in (P.facts.get("walk") or {}).get("dep_overrides", []):
+        for m, e in o["provided"].items():
+            t[(o["trait"], norm(o["self"]), m)] = (e["overridden"], e["called_by_blsful"])
+    return t
+
+
+def check_override_divergence(ctx, Pa, Pb, rule="E10.override"):
+    """A trait method with a default body that one backend crate overrides and the other inherits is a place where
+    the same blsful call may run different code.  Every such method *that blsful calls* must be triaged (read in both
+    dependency sources); calling a new one (e.g. PrimeField::from_repr_vartime, overridden only by blstrs_plus) is
+    reported."""
+    ta, tb = _override_table(Pa), _override_table(Pb)
+    ctx.floor(rule, "provided trait methods of backend types (both builds)", min(len(ta), len(tb)), 100)
+    ndiv = 0
+    for k in sorted(set(ta) & set(tb)):
+        (oa, ca), (ob, cb) = ta[k], tb[k]
+        if oa == ob:
+            continue
+        ndiv += 1
+        if not (ca or cb):
+            continue
+        why = OVERRIDE_TRIAGED.get(k)
+        ctx.ob(rule, "%s::%s for %s" % (k[0], k[2], k[1]), why is not None, "blsful calls %s::%s; for %s it is %s in blstrs_plus and %s in bls12_381_plus%s" % (k[0], k[2], k[1], "overridden" if oa else "the trait default", "overridden" if ob else "the trait default", (" - triaged: " + why) if why else " - not triaged: the two backends may disagree here"), weak=why is not None)
+    ctx.ob(rule, "summary", True, "%d provided methods differ in override status between the backends" % ndiv, sample={"divergent": ndiv})
 
 
 def cfg_census(src):
